@@ -240,6 +240,11 @@ func checkC20Cold(c c20Case) string {
 	if i := bytes.Index(out, []byte("WARNING: DATA RACE")); i >= 0 {
 		return "data race when the concurrent calls are the first calls of the process:\n" + hexRe.ReplaceAllString(clip(string(out[i:]), 1800), "")
 	}
+	if ee, ok := runErr.(*exec.ExitError); ok && ee.ProcessState != nil && !ee.ProcessState.Exited() {
+		// killed from outside (memory, time): nothing was learnt about the library
+		ev.Excluded("cold-start process killed by the system")
+		return ""
+	}
 	return fmt.Sprintf("the process running the calls as its first calls died (%v):\n%s", runErr, clip(string(out), 800))
 }
 
@@ -439,7 +444,16 @@ func genC20Op(t *rapid.T) c20Op {
 			// a filler cue is created, then the caller edits or strips the list it owns
 			name = "forceduration+" + rapid.SampledFrom([]string{"removestyling", "edittext", "edittext+forceduration"}).Draw(t, "after")
 		}
-		return c20Op{Kind: "transform", Name: name, Cues: genCues(t, 0, 6, 100*nsMs*1000, opTexts), Arg: rapid.Int64Range(1, 200000).Draw(t, "arg") * nsMs}
+		cues := genCues(t, 0, 6, 100*nsMs*1000, opTexts)
+		// the argument (period, shift, duration) is bounded from below so that no operation yields more than a few
+		// hundred cues: under the race detector, tens of thousands of them per call exhaust the machine's memory
+		var maxEnd int64 = nsMs
+		for _, cu := range cues {
+			if cu.E > maxEnd {
+				maxEnd = cu.E
+			}
+		}
+		return c20Op{Kind: "transform", Name: name, Cues: cues, Arg: rapid.Int64Range(maxEnd/nsMs/300+1, 200000).Draw(t, "arg") * nsMs}
 	}
 }
 
